@@ -294,9 +294,73 @@ const SOUP_TOKENS: &[&str] = &[
     "\n ", "def f(a, b=1, *c, **d):\n  ", "if a:\n  ", "for x in y:\n    ", "[a for a in b if c]", "x: int = ",
 ];
 
+/// A lexeme (string of every flavour, identifier, number, comment) whose length sits around a
+/// power of two (where a buffer or a truncated excerpt would end), filled with characters of 1-4
+/// bytes at a random phase, so that some multi-byte character straddles every fixed byte offset.
+fn long_lexeme(r: &mut util::Rng) -> String {
+    let target = match r.below(6) {
+        0 => 28 + r.below(8),
+        1 | 2 => 60 + r.below(10),
+        3 => 124 + r.below(10),
+        4 => 250 + r.below(12),
+        _ => 1018 + r.below(12),
+    } as usize;
+    let fill = |r: &mut util::Rng, ascii_only: bool, ident: bool| -> String {
+        let mut s = String::new();
+        for _ in 0..r.below(4) {
+            s.push('a');
+        }
+        let wide: &[&str] = if ident { &["a", "_", "b1"] } else { &["a", "é", "€", "𝄞", " ", "b"] };
+        let heavy = r.below(4); // which width dominates
+        while s.len() < target {
+            let c = if ascii_only { "a" } else if r.chance(2, 3) { wide[(heavy as usize + 1) % wide.len()] } else { wide[r.below(wide.len() as u64) as usize] };
+            s.push_str(c);
+        }
+        s
+    };
+    match r.below(12) {
+        0 | 1 => format!("\"{}\"", fill(r, false, false)),
+        2 => format!("'{}'", fill(r, false, false)),
+        3 => format!("\"\"\"{}\"\"\"", fill(r, false, false)),
+        4 => format!("r\"{}\"", fill(r, false, false)),
+        5 => {
+            let ascii = r.chance(1, 2);
+            format!("b\"{}\"", fill(r, ascii, false))
+        }
+        6 => format!("f\"{}{{a}}{}\"", fill(r, false, false), fill(r, false, false)),
+        7 => fill(r, true, true),
+        8 => format!("{}é{}", fill(r, true, true), "z"),
+        9 => format!("1{}", "0".repeat(target)),
+        10 => format!("# {}\n", fill(r, false, false)),
+        _ => format!("\"{}", fill(r, false, false)), // unterminated
+    }
+}
+
+/// the lexeme in positions where the parser accepts it and where it must reject it
+fn long_lexeme_text(r: &mut util::Rng) -> String {
+    const CTX: &[&str] = &[
+        "x = {L}\n", "x = 1 {L}\n", "def f({L}):\n    pass\n", "f(a {L})\n", "{L} {L}\n", "[x for x in y {L}]\n", "{L}.foo\n",
+        "a.{L}\n", "x = ({L}\n", "{L} = 1\n", "load({L}, {L})\n", "lambda {L}: 1\n", "if {L}:\n    pass\n", "x[{L}:\n",
+        "x = [{L}, {L}]\n", "def {L}(): pass\n", "for {L} in {L}: pass\n", "x = f({L}={L})\n", "return {L}\n", "{L}", "x = {L} if {L} else\n",
+        "x = not {L} in\n", "x: {L} = 1\n", "def f(a: {L}) -> {L}: pass\n", "  {L}\n", "x = {{{L}: {L}}}\n", "x = {L} {L} {L}\n",
+    ];
+    let c = CTX[r.below(CTX.len() as u64) as usize];
+    let mut out = String::new();
+    for part in c.split("{L}").enumerate() {
+        if part.0 > 0 {
+            out.push_str(&long_lexeme(r));
+        }
+        out.push_str(part.1);
+    }
+    out
+}
+
 fn soup_text(r: &mut util::Rng, max: usize) -> String {
     let len = 1 + r.below(max as u64) as usize;
-    let mode = r.below(4);
+    let mode = r.below(5);
+    if mode == 4 {
+        return long_lexeme_text(r);
+    }
     if mode == 0 {
         // random bytes (lossily decoded: the parser takes a String)
         let bytes: Vec<u8> = (0..len)
